@@ -12,8 +12,8 @@ SPEC = {
  "C05": ("ReduceProof ArgmaxProof", ["reduce_correct","argmax_correct","argmin_correct"]),
  "C06": ("Chain", ["chain_correct","indistinguishable_read"]),
  "C07": ("ScanProof AccumProof DiffProof SortProof UniqueProof UniqueLens", ["cumsum_correct","accumulate_correct","diff_correct","sort_correct","unique_correct"]),
- "C08": ("StructProof SubsetProof RSliceProof NonzeroProof PaddedProof", ["concat0_correct","subset_correct","ragged_slice_correct","nonzero_correct","padded_correct"]),
- "C09": ("ColProof ColSum", ["col_counts_correct","colsum_correct"]),
+ "C08": ("StructProof SubsetProof RSliceProof NonzeroProof PaddedProof Struct2 Struct2Proof", ["concat0_correct","concat1_correct","like_correct","where_correct","where_scalar_correct","subset_correct","ragged_slice_correct","nonzero_correct","padded_correct"]),
+ "C09": ("ColProof ColSum Struct2 Struct2Proof", ["col_counts_correct","colsum_correct","get_column_values_correct"]),
  "C10": ("HeapProof HeapRun HeapRunProof", ["run_sim","C10_partial","apply_hsel_natural","safe_runb_iff","C10_partial_concrete","heap_run_is_value_semantics","C10_refuted"]),
  "C11": ("HashSet HashProof", ["table_is_dictionary","getv_correct","setv_correct"]),
  "C12": ("CounterProof", ["count_correct","count_history","totals_split_and_order_invariant"]),
@@ -21,7 +21,7 @@ SPEC = {
  "C15": ("RLEIndex GetSlice StartEnd", ["get_position_correct","get_slice_correct","start_to_end_shape"]),
  "C16": ("BinaryProof RLEMisc RLConcat", ["apply_binary_correct","rl_map_correct","rl_sum_correct","rl_concat_correct"]),
  "C17": ("RLEMisc RL2Proof RL2Col RL2Ravel RL2Elem", ["from_ragged_decode","rl2_select_correct","rl2_map_correct","rl2_concat_correct","rl2_sum_correct","rl2_col_correct","rl2_ravel_correct","rl2_elem_correct"]),
- "C18": ("DataClassProof", ["obj_select_entries","obj_item_entry"]),
+ "C18": ("DataClassProof", ["obj_select_entries","obj_item_entry","obj_concat_entries","obj_eqb_iff","varlen_rows"]),
  "C19": ("IdxWidth", ["index_rows_width_independent"]),
 }
 HEADER = "From Coq Require Import ZArith List Bool.\nFrom NPS Require Import ListAux PySlice NumpySem Scatter BuildIdx XorBroadcast View Index Assign Reduce Scan RaOps Heap Hash HashRun BitArr RLE RLEOps RLE2d DataClass RowsSpec AssignSpec MapSpec Denote {mods}.\nImport ListNotations.\nOpen Scope Z_scope.\n"
